@@ -356,6 +356,19 @@ pub fn run(ctx: &Ctx, rep: &mut Report) {
             Some(vs) => rep.violations(vs),
             None => rep.count("skipped_not_parsed"),
         }
+        // the loader's resolver (its own walk over get_required_files / load_file) on a sample of fault-free graphs: it
+        // must ask only for files of the project and emit; repeated, because its file table is a hash map
+        if case % 16 == 0 && fault == "none" {
+            let map: std::collections::BTreeMap<String, String> = files.iter().cloned().collect();
+            for _ in 0..3 {
+                rep.count("loader_route_runs");
+                if let Err(e) = crate::props::c14::loader_module("schema: ./schema.graphql\n", &files[0].0, &map) {
+                    let class = if e.contains("not found") { "file-not-found" } else if e.contains("not a file of the project") { "asks-for-a-file-outside-the-project" } else { "other" };
+                    rep.violations(vec![Violation { sig: format!("C13|loader|fails-without-fault|{class}"), detail: format!("the loader cannot emit the root of a fault-free import graph: {e} — files {:?}", clip(&format!("{files:?}"), 700)), replay: json!({"property":"C13","kind":"loader","files":files.iter().map(|(p,t)| json!([p,t])).collect::<Vec<_>>()}) }]);
+                    break;
+                }
+            }
+        }
         // permuting the import lines of every file must not change the set of definitions
         if case % 4 == 0 {
             let permuted: Vec<(String, String)> = files
@@ -379,6 +392,16 @@ pub fn run(ctx: &Ctx, rep: &mut Report) {
 pub fn replay(case: &Value) -> Vec<Violation> {
     let files: Vec<(String, String)> = case["files"].as_array().map(|a| a.iter().map(|x| (x[0].as_str().unwrap_or("").to_string(), x[1].as_str().unwrap_or("").to_string())).collect()).unwrap_or_default();
     if files.is_empty() {
+        return vec![];
+    }
+    if case["kind"].as_str() == Some("loader") {
+        let map: std::collections::BTreeMap<String, String> = files.iter().cloned().collect();
+        for _ in 0..8 {
+            if let Err(e) = crate::props::c14::loader_module("schema: ./schema.graphql\n", &files[0].0, &map) {
+                let class = if e.contains("not found") { "file-not-found" } else if e.contains("not a file of the project") { "asks-for-a-file-outside-the-project" } else { "other" };
+                return vec![Violation { sig: format!("C13|loader|fails-without-fault|{class}"), detail: e, replay: case.clone() }];
+            }
+        }
         return vec![];
     }
     check_files(&files, case["root"].as_u64().unwrap_or(0) as usize).unwrap_or_default()
